@@ -72,6 +72,11 @@ Theorem float_decodes_to_double : forall b, finite_bits b = true -> representabl
 Proof. exact fint_representable. Qed.
 Print Assumptions float_decodes_to_double.
 
+(* the packed observation compared in the correspondence is exactly the six predicates *)
+Theorem mask_is_six_predicates : forall a b, mask a b = mask6 a b.
+Proof. exact mask_ok. Qed.
+Print Assumptions mask_is_six_predicates.
+
 (* ---------- examples / non-vacuity *)
 Definition f_2p53 : Z := 4845873199050653696.   (* 0x4340000000000000 = 9007199254740992.0 *)
 Example ex_wf : wf (Fix (2 ^ 53 + 1)) /\ wf (Flt f_2p53) /\ wf (Rat 1 3) /\ wf (Big (2 ^ 64)).
